@@ -79,6 +79,9 @@ class CapacityOracle(Oracle):
             self.res.violate((h.subj.cls, "timer_overflow"), "process raised: %s" % exc)
 
 
+shrink_candidates = gen_store.shrink_candidates
+
+
 def run_case(case):
     res = Result()
     o = CapacityOracle(res)
